@@ -770,11 +770,10 @@ class Interp:
             self.noforking += 1
             try:
                 return self.formula(node, self.spec_frame(fr))
-            except Unsupported as e:
-                if 'fork inside' not in str(e) and 'pure' not in str(e):
-                    pass
-            except PyExc:
-                pass
+            except (PathEnd, KeyboardInterrupt):
+                raise
+            except Exception:
+                pass        # any failure of the merged evaluation (forks needed, partial operation outside its guard): fall back
             finally:
                 self.noforking -= 1
         return self.formula(node, self.spec_frame(fr))
